@@ -396,12 +396,14 @@ class TextXVisitor(RRELVisitor):
     def _resolve_rule_refs(self, grammar_parser, model_parser):
         """Resolves parser ParsingExpression crossrefs."""
 
-        def _resolve_rule(rule):
+        def _resolve_rule(rule, alias_chain=()):
             """
             Recursively resolve peg rule references.
 
             Args:
                 rule(ParsingExpression or RuleCrossRef)
+                alias_chain(tuple): Names of the rules whose single rule
+                    reference is being followed to reach `rule`.
             """
             if not isinstance(rule, RuleCrossRef) and rule in resolved_rules:
                 return rule
@@ -428,11 +430,7 @@ class TextXVisitor(RRELVisitor):
                                 col,
                                 filename=model_parser.metamodel.file_name,
                             )
-                        alias_chain.append(rule_name)
-                        try:
-                            rule = _resolve_rule(rule)
-                        finally:
-                            alias_chain.pop()
+                        rule = _resolve_rule(rule, (*alias_chain, rule_name))
                         model_parser.metamodel[rule_name]._tx_peg_rule = rule
                     if suppress:
                         # Special case. Suppression on rule reference.
@@ -466,8 +464,6 @@ class TextXVisitor(RRELVisitor):
                 grammar_parser.dprint(f"RESOLVING RULE CROSS-REFS - PASS {i + 1}")
 
             resolved_rules = set()
-            # Names of the rules whose single rule reference is being resolved
-            alias_chain = []
             _resolve_rule(model_parser.parser_model)
 
             # Resolve rules of all meta-classes to handle unreferenced
